@@ -24,75 +24,79 @@ VARIABLE l
 RECURSIVE FlatB(_)
 FlatB(ss) == IF ss = <<>> THEN <<>> ELSE Head(ss) \o FlatB(Tail(ss))
 
-Stream(r) == FlatB(r.chunks)
-HasNul(r) == Stream(r) # <<>> /\ Stream(r)[1] = NUL
-Lines(r) == TakeLines(IF HasNul(r) THEN Tail(Stream(r)) ELSE Stream(r), 100000).lines
-Cmd(r, i) ==
-  LET ln == Lines(r)[i] IN
-  IF i = 1 /\ ~HasNul(r) THEN (IF ln.end = "lfstart" THEN [k |-> "LFSTART"] ELSE [k |-> "NONUL"])
-  ELSE ClientCmd(ln, r.cfg.uid)
-Replies(r) == LET t == TakeLines(r.written, 100000) IN
-              [i \in 1..Len(t.lines) |-> ReplyKind(t.lines[i])] \o (IF t.rest = <<>> THEN <<>> ELSE <<"MALFORMED">>)
+\* what was observed, read once per line of the file into state variables:
+VARIABLES cmds,     \* the commands the client sent (complete lines only), as the server must read them
+          reps,     \* kinds of the reply lines the server wrote
+          outcome,  \* authenticated | failed | waiting | panic
+          wf        \* the server's output consists of complete reply lines
+ovars == <<cmds, reps, outcome, wf>>
 
 Terminal(s) == s \in {"Done", "Failed", "Panic"}
 OutcomeOf(s) == CASE s = "Done" -> "authenticated" [] s = "Failed" -> "failed" [] s = "Panic" -> "panic" [] OTHER -> "waiting"
 
 (* --- 1. explanation by the reference relation: set of [st, j] = possible state, next reply index --- *)
-RECURSIVE Walk(_, _, _, _)
-Walk(r, i, P, D) ==
-  IF i > Len(Lines(r)) \/ P = {} THEN P
-  ELSE LET c == Cmd(r, i)
-           rs == Replies(r)
+RECURSIVE Walk(_, _, _)
+Walk(i, P, D) ==
+  IF i > Len(cmds) \/ P = {} THEN P
+  ELSE LET c == cmds[i]
            step(p) ==
              IF Terminal(p.st) THEN {p}
-             ELSE LET al == Allowed(r.cfg, p.st, c, D) IN
-                  {[st |-> a.st, j |-> p.j + 1] : a \in {x \in al : x.reply # "none" /\ p.j <= Len(rs) /\ rs[p.j] = x.reply}}
+             ELSE LET al == Allowed(cfg, p.st, c, D) IN
+                  {[st |-> a.st, j |-> p.j + 1] : a \in {x \in al : x.reply # "none" /\ p.j <= Len(reps) /\ reps[p.j] = x.reply}}
                   \cup {[st |-> a.st, j |-> p.j] : a \in {x \in al : x.reply = "none"}}
-       IN Walk(r, i + 1, UNION {step(p) : p \in P}, D)
-Explained(r, D) ==
-  \E p \in Walk(r, 1, {[st |-> "WaitAuth", j |-> 1]}, D) :
-     p.j = Len(Replies(r)) + 1 /\ OutcomeOf(p.st) = r.outcome
+       IN Walk(i + 1, UNION {step(p) : p \in P}, D)
+Explained(D) ==
+  \E p \in Walk(1, {[st |-> "WaitAuth", j |-> 1]}, D) :
+     p.j = Len(reps) + 1 /\ OutcomeOf(p.st) = outcome
 
 (* --- 2. the observed history: reply i answers line i; the line after the last reply is where the
    server finished, gave up or panicked; the server's state is inferred from its own replies --- *)
 AfterReply(from, reply) ==
   CASE reply = "OK" -> "WaitBegin" [] reply = "REJECTED" -> "WaitAuth" [] reply = "DATA" -> "WaitData" [] OTHER -> from
 RECURSIVE FromAt(_, _)
-FromAt(r, i) == IF i = 1 THEN "WaitAuth" ELSE AfterReply(FromAt(r, i - 1), Replies(r)[i - 1])
-ObsHist(r) ==
-  LET n == Len(Replies(r))
-      nl == Len(Lines(r))
+FromAt(rp, i) == IF i = 1 THEN "WaitAuth" ELSE AfterReply(FromAt(rp, i - 1), rp[i - 1])
+ObsHist(cm, rp, oc) ==
+  LET n == Len(rp)
+      nl == Len(cm)
       k == IF n < nl THEN n ELSE nl
-      answered == [i \in 1..k |-> [cmd |-> Cmd(r, i), from |-> FromAt(r, i), reply |-> Replies(r)[i]]]
-      last == IF r.outcome # "waiting" /\ nl > n /\ n = k
-                THEN <<[cmd |-> Cmd(r, n + 1), from |-> FromAt(r, n + 1), reply |-> "none"]>> ELSE <<>>
+      answered == [i \in 1..k |-> [cmd |-> cm[i], from |-> FromAt(rp, i), reply |-> rp[i]]]
+      last == IF oc # "waiting" /\ nl > n /\ n = k
+                THEN <<[cmd |-> cm[n + 1], from |-> FromAt(rp, n + 1), reply |-> "none"]>> ELSE <<>>
   IN answered \o last
-ObsSt(r) == CASE r.outcome = "authenticated" -> "Done" [] r.outcome = "failed" -> "Failed" [] r.outcome = "panic" -> "Panic"
-              [] OTHER -> FromAt(r, Len(Replies(r)) + 1)
+ObsSt(rp, oc) == CASE oc = "authenticated" -> "Done" [] oc = "failed" -> "Failed" [] oc = "panic" -> "Panic"
+                   [] OTHER -> FromAt(rp, Len(rp) + 1)
 
-TInit == /\ l \in 1..Len(Rec)
-        /\ cfg = [mech |-> Rec[l].cfg.mech, creds |-> Rec[l].cfg.creds, canfd |-> Rec[l].cfg.canfd]
-        /\ hist = ObsHist(Rec[l]) /\ st = ObsSt(Rec[l])
-        /\ net = <<>> /\ rbuf = <<>> /\ taken = <<>>
-TNext == UNCHANGED <<l, vars, svars>>
+TInit ==
+  /\ l \in 1..Len(Rec)
+  /\ LET r == Rec[l]
+         strm == FlatB(r.chunks)
+         hasNul == strm # <<>> /\ strm[1] = NUL
+         lns == TakeLines(IF hasNul THEN Tail(strm) ELSE strm, 100000).lines
+         cm == [i \in 1..Len(lns) |->
+                  IF i = 1 /\ ~hasNul THEN (IF lns[i].end = "lfstart" THEN [k |-> "LFSTART"] ELSE [k |-> "NONUL"])
+                  ELSE ClientCmd(lns[i], r.cfg.uid)]
+         t == TakeLines(r.written, 100000)
+         rp == [i \in 1..Len(t.lines) |-> ReplyKind(t.lines[i])]
+     IN /\ cmds = cm /\ reps = rp /\ outcome = r.outcome
+        /\ wf = (t.rest = <<>> /\ Len(rp) <= Len(cm) /\ \A i \in 1..Len(rp) : rp[i] \notin {"MALFORMED", "OTHER"})
+        /\ cfg = [mech |-> r.cfg.mech, creds |-> r.cfg.creds, canfd |-> r.cfg.canfd]
+        /\ hist = ObsHist(cm, rp, r.outcome) /\ st = ObsSt(rp, r.outcome)
+  /\ net = <<>> /\ rbuf = <<>> /\ taken = <<>>
+TNext == UNCHANGED <<l, vars, svars, ovars>>
 
 Report(what, detail) == PrintT(<<"MISMATCH", ToJson([line |-> l, id |-> Rec[l].id, var |-> Rec[l].var, what |-> what, detail |-> detail])>>)
 
 \* a smallest set of listed deviations that explains the observation (if any)
-ExplainingDevs(r) ==
-  LET ok == {D \in SUBSET Devs : Explained(r, D)} IN
+ExplainingDevs ==
+  LET ok == {D \in SUBSET Devs : Explained(D)} IN
   IF ok = {} THEN {} ELSE {CHOOSE D \in ok : \A E \in ok : Cardinality(D) <= Cardinality(E)}
 
-Summary(r) == [cfg |-> cfg, cmds |-> [i \in 1..Len(hist) |-> hist[i].cmd], replies |-> Replies(r), outcome |-> r.outcome,
-               nlines |-> Len(Lines(r))]
-\* the server answered a line it should not have seen, or wrote something that is not a reply line
-WellFormedObs(r) == Len(Replies(r)) <= Len(Lines(r)) /\ \A i \in 1..Len(Replies(r)) : Replies(r)[i] # "MALFORMED"
+Summary == [cfg |-> cfg, cmds |-> cmds, replies |-> reps, outcome |-> outcome]
 
 LineOk ==
-  LET r == Rec[l] IN
-  IF Explained(r, {}) THEN TRUE
-  ELSE LET ds == ExplainingDevs(r) IN
-    IF ds # {} THEN Report("known", [devs |-> CHOOSE D \in ds : TRUE, obs |-> Summary(r)])
+  IF Explained({}) THEN TRUE
+  ELSE LET ds == ExplainingDevs IN
+    IF ds # {} THEN Report("known", [devs |-> CHOOSE D \in ds : TRUE, obs |-> Summary])
     ELSE
       LET panicOk == NeverPanic
           sound == OkSound /\ AuthSound
@@ -100,13 +104,12 @@ LineOk ==
           err == ErrorForUnknownOrMisplaced
           compl == RightPeerAccepted /\
                    (\A i \in 1..Len(hist) : (hist[i].cmd.k = "BEGIN" /\ hist[i].from = "WaitBegin" /\ sound) => (i = Len(hist) /\ st = "Done"))
-          wf == WellFormedObs(r)
-      IN /\ (panicOk \/ Report("no-panic", Summary(r)))
-         /\ (sound \/ Report("auth-sound", Summary(r)))
-         /\ (rej \/ Report("rejected-reply", Summary(r)))
-         /\ (err \/ Report("error-reply", Summary(r)))
-         /\ (compl \/ Report("auth-complete", Summary(r)))
-         /\ ((~wf \/ ~(panicOk /\ sound /\ rej /\ err /\ compl)) \/ Report("drift", Summary(r)))
-         /\ (wf \/ Report("drift", [malformed |-> TRUE, obs |-> Summary(r)]))
+      IN /\ (panicOk \/ Report("no-panic", Summary))
+         /\ (sound \/ Report("auth-sound", Summary))
+         /\ (rej \/ Report("rejected-reply", Summary))
+         /\ (err \/ Report("error-reply", Summary))
+         /\ (compl \/ Report("auth-complete", Summary))
+         /\ ((~wf \/ ~(panicOk /\ sound /\ rej /\ err /\ compl)) \/ Report("drift", Summary))
+         /\ (wf \/ Report("drift", [malformed |-> TRUE, obs |-> Summary]))
 Inv == LineOk \/ TRUE
 =============================================================================
